@@ -61,4 +61,12 @@ CopyEqualsWalk == RunCopy(l, FALSE, {}) = SetOf(RunAlg(l))
 DeferredOnlyOnDemand == LET W == RunCopy(l, FALSE, {}) IN
                         \A d \in W : IsDir(d) => (\E q \in W : Under(q, d)) \/ d \in SetOf(RunAlg(l))
 ExistingLeftAlone == \A have \in SUBSET Dirs : RunCopy(l, FALSE, have) \cap have \subseteq RunCopy(l, FALSE, {})
+
+\* ---- case generation for the copy driver (configurations _gen*): the written set of the ALGORITHM model per pattern list
+RECURSIVE SetSeq(_)
+SetSeq(S) == IF S = {} THEN <<>> ELSE LET x == CHOOSE y \in S : \A z \in S : y = z \/ PLess(y, z) IN <<x>> \o SetSeq(S \ {x})
+GenCopyCases ==
+  ndJsonSerialize(IOEnv.VERIF_GEN_DIR \o "/copycase_" \o Mode \o "_" \o ListCode(l) \o ".ndjson",
+     <<[name |-> Mode \o "_" \o ListCode(l), mode |-> Mode, pats |-> [k \in DOMAIN l |-> PatText(l[k])],
+        written |-> PathTexts(SetSeq(RunCopy(l, FALSE, {})))]>>)
 =============================================================================
